@@ -161,19 +161,37 @@ class Walk:
         if r['rv'] != 0 and t.login is not None: s.F('CTRL', 'C_Logout|failed', 'logout failed while logged in', got=r['rvname'])
         if r['rv'] == 0: s.m.on_logout(se.ti)
         s.cov('C03', ('logout', t.login))
-    def op_inittoken(s, ti=None, right=None):
+    def op_inittoken(s, ti=None, right=None, null_label=None):
         if ti is None: ti = s.rnd.randrange(len(s.m.toks))
         t = s.m.toks[ti]
         if right is None: right = s.rnd.random() < 0.7
         pin = t.so if right else s.wrong_pin(t.so, t.usr)
         label = b'tok%d-r%d' % (ti, s.rnd.randrange(1000)); ok = s.m.inittoken_allowed(ti, pin); has_sess = bool(s.m.live_sessions(ti))
-        s.H('inittoken', ti, pin, label)
+        if null_label is None: null_label = s.rnd.random() < 0.15          # pLabel = NULL: must not initialise anything (the model cannot know a label); whatever the code, a refusal changes nothing
+        s.H('inittoken', ti, pin, None if null_label else label)
+        if null_label:
+            r = s.c('C_InitToken', slot=t.slot, pin=pin.hex(), label_null=True)
+            if r['rv'] == 0: s.F('MODEL', 'C_InitToken|null-label|accepted', 'C_InitToken with a NULL label succeeded; the model cannot follow'); return
+            s.cov('C03', ('inittoken-null-label', has_sess, pin == t.so)); s.probe_public(ti, 'C_InitToken(NULL label)'); return
         r = s.c('C_InitToken', slot=t.slot, pin=pin.hex(), label=label.hex())
         if r['rv'] == 0 and not ok:
             s.F('C03' if has_sess else 'C14', f'C_InitToken|{"session-open" if has_sess else "wrong-so-pin"}|accepted', 'C_InitToken succeeded although it must be refused', got=r['rvname'])
         if r['rv'] != 0 and ok: s.F('C14', 'C_InitToken|right-pin,no-session|refused', 're-initialisation with the right SO PIN failed', got=r['rvname'])
         s.cov('C03', ('inittoken', has_sess, pin == t.so)); s.cov('C14', ('inittoken', has_sess, pin == t.so))
         if r['rv'] == 0: s.m.on_inittoken(ti, label)
+        else: s.probe_public(ti, 'C_InitToken')
+    def probe_public(s, ti, after):
+        """a token without any session shows its login state to nobody: after a FAILED call on such a token, open a read-only session, look, close
+        (refused while the SO is logged in; its state tells whether somebody is logged in)"""
+        t = s.m.toks[ti]
+        if s.m.live_sessions(ti) or t.login is not None: return
+        r = s.c('C_OpenSession', slot=t.slot, flags=4)
+        if r['rv'] != 0: s.F('C03', f'{after}|failed-call|login-state-changed(RO-open:{r["rvname"]})', 'after a failed call on a token without sessions a read-only session can no longer be opened: the failed call changed the login state', got=r['rvname']); return
+        v = s.m.new_handle(r['h'], 'probe-session')
+        if v: s.F('C11', 'handle-reused|session', v)
+        i = s.c('C_GetSessionInfo', s=r['h'])
+        if i['rv'] != 0 or i.get('state') != PUB_RO: s.F('C03', f'{after}|failed-call|login-state-changed(state={i.get("state")})', 'after a failed call on a token without sessions a fresh read-only session is not in the public state', got=i.get('state'))
+        s.c('C_CloseSession', s=r['h']); s.cov('C03', ('probe-after-failed-call', after))
     def op_initpin(s, se=None, pin=None):
         se = se or s.pick_sess()
         if not se: return
